@@ -112,6 +112,12 @@ def replay(rec: dict) -> bool:
         return ok and not any(rig.per_frame_oracle(a) for a in impl)
     if r.get("rig") == "net":
         res = netrig.run_scenario(r["scenario"], control=False)
+        if res["pw"]["lines"]:
+            with lean_lock():
+                from harness.lib.core import lake_build
+                lake_build([EXE])
+            if run_driver(EXE, ["reset"] + res["pw"]["lines"])[1:] != res["pw"]["impl"]:
+                return False
         return not res["violations"] and not res["model_bad"]
     return True
 
